@@ -163,6 +163,36 @@ func (w *World) CG() *CallGraph {
 				}
 			}
 		}
+		// function values created here (method values, functions stored in tables) are potential callees from here on
+		for _, b := range fn.Blocks {
+			for _, in := range b.Instrs {
+				if mc, ok := in.(*ssa.MakeClosure); ok {
+					if f, ok := mc.Fn.(*ssa.Function); ok && strings.HasPrefix(f.Synthetic, "bound method wrapper") {
+						for _, wb := range f.Blocks {
+							for _, wi := range wb.Instrs {
+								if ci, ok := wi.(ssa.CallInstruction); ok {
+									if callee := ci.Common().StaticCallee(); callee != nil && IsKarpenterFn(callee) {
+										outs = appendUniqueFn(outs, callee)
+									}
+								}
+							}
+						}
+					}
+					continue
+				}
+				if _, isCall := in.(ssa.CallInstruction); isCall {
+					continue
+				}
+				for _, op := range in.Operands(nil) {
+					if op == nil || *op == nil {
+						continue
+					}
+					if f, ok := (*op).(*ssa.Function); ok && IsKarpenterFn(f) && f.Synthetic == "" {
+						outs = appendUniqueFn(outs, f)
+					}
+				}
+			}
+		}
 		cg.Out[fn] = outs
 	}
 	w.cg = cg
